@@ -41,16 +41,20 @@ type Op struct {
 }
 
 type Scenario struct {
-	Mode    string    `json:"mode"` // "stress" (this file) | "sched" (sched.go) | "race" (race.go)
-	Class   string    `json:"class"`
-	Res     string    `json:"res"` // value | collection
-	Initial []string  `json:"initial,omitempty"`
-	Subs    []SubSpec `json:"subs"`
-	Writers [][]Op    `json:"writers"`
-	BoundMs int       `json:"boundMs"`
-	Sched   *SchedCase `json:"sched,omitempty"`
-	Race    *RaceCase  `json:"race,omitempty"`
-	Pipe    *PipeCase  `json:"pipe,omitempty"`
+	Mode    string   `json:"mode"` // "stress" (this file) | "sched" (sched.go) | "race" (race.go)
+	Class   string   `json:"class"`
+	Res     string   `json:"res"` // value | collection
+	Initial []string `json:"initial,omitempty"`
+	// Icpt: the collection is created WithIDInterceptor(<named function>): "" | lower | upper | trim.  The ids in
+	// Subs and Writers are what the callers pass in (any spelling); Initial holds stored (canonical) ids.
+	Icpt    string       `json:"icpt,omitempty"`
+	Subs    []SubSpec    `json:"subs"`
+	Writers [][]Op       `json:"writers"`
+	BoundMs int          `json:"boundMs"`
+	Sched   *SchedCase   `json:"sched,omitempty"`
+	Race    *RaceCase    `json:"race,omitempty"`
+	Pipe    *PipeCase    `json:"pipe,omitempty"`
+	Adapter *AdapterCase `json:"adapter,omitempty"`
 	// LingerAt: every goroutine reaching this yield point sleeps LingerUs there (widens a window)
 	LingerAt string `json:"lingerAt,omitempty"`
 	LingerUs int    `json:"lingerUs,omitempty"`
@@ -123,6 +127,7 @@ type ev struct {
 func (e ev) String() string { return fmt.Sprintf("%s:%s:w%d#%d", e.Typ, e.ID, e.W, e.Seq) }
 
 func writerOfID(id string) int {
+	id = base(id)
 	if id == "x" {
 		return 90
 	}
@@ -268,8 +273,12 @@ func runStress(sc Scenario) (out Outcome) {
 		for _, id := range sc.Initial {
 			opts = append(opts, resource.WithInitialRecord(id, wrapperspb.Int64(0)))
 		}
+		if f := icptFunc(sc.Icpt); f != nil {
+			opts = append(opts, resource.WithIDInterceptor(f))
+		}
 		coll = resource.NewCollection(opts...)
 	}
+	key := func(id string) string { return canon(sc.Icpt, id) }
 
 	subs := make([]*subRun, len(sc.Subs))
 
@@ -329,7 +338,7 @@ func runStress(sc Scenario) (out Outcome) {
 					return ev{}, false, false
 				}
 				_, q, _ := decode(c.Value)
-				return ev{Typ: "UPDATE", ID: sp.ID, W: writerOfID(sp.ID), Seq: q}, c.SeedValue, true
+				return ev{Typ: "UPDATE", ID: key(sp.ID), W: writerOfID(sp.ID), Seq: q}, c.SeedValue, true
 			}
 		default:
 			ch := coll.Pull(ctx, optsOf(sp)...)
@@ -350,6 +359,7 @@ func runStress(sc Scenario) (out Outcome) {
 	for _, id := range sc.Initial {
 		present[id] = true
 	}
+	removed := map[string]bool{} // items for which a Delete succeeded while they were present (every subscription is older)
 	var presentMu sync.Mutex
 	writers := make([]*writerRun, len(sc.Writers))
 	start := make(chan struct{})
@@ -359,31 +369,37 @@ func runStress(sc Scenario) (out Outcome) {
 			_, err = value.Set(val(w, seq))
 			return ev{Typ: "SET", W: w, Seq: seq}, err == nil, err
 		case "upd":
+			// the caller passes op.ID as spelled; the item (and the id in the event) is key(op.ID)
+			k := key(op.ID)
 			presentMu.Lock()
-			was := present[op.ID]
+			was := present[k]
 			presentMu.Unlock()
 			_, err = coll.Update(op.ID, val(w, seq), resource.WithCreateIfAbsent())
 			if err == nil {
 				presentMu.Lock()
-				present[op.ID] = true
+				present[k] = true
 				presentMu.Unlock()
 			}
 			t := types.ChangeType_UPDATE
 			if !was {
 				t = types.ChangeType_ADD
 			}
-			return ev{Typ: t.String(), ID: op.ID, W: writerOfID(op.ID), Seq: seq}, err == nil, err
+			return ev{Typ: t.String(), ID: k, W: writerOfID(k), Seq: seq}, err == nil, err
 		case "del":
+			k := key(op.ID)
 			presentMu.Lock()
-			was := present[op.ID]
+			was := present[k]
 			presentMu.Unlock()
 			_, err = coll.Delete(op.ID, resource.WithAllowMissing(true))
 			if err == nil {
 				presentMu.Lock()
-				delete(present, op.ID)
+				delete(present, k)
+				if was {
+					removed[k] = true
+				}
 				presentMu.Unlock()
 			}
-			return ev{Typ: "REMOVE", ID: op.ID, W: writerOfID(op.ID), Seq: 0}, err == nil && was, err
+			return ev{Typ: "REMOVE", ID: k, W: writerOfID(k), Seq: 0}, err == nil && was, err
 		}
 		return ev{}, false, fmt.Errorf("bad op %v", op)
 	}
@@ -510,22 +526,20 @@ func runStress(sc Scenario) (out Outcome) {
 		checkDelivery(o, sc, subs, writers, bound)
 	}
 
-	// single-item subscriptions end on removal
-	xRemoved := false
-	if writersDone && coll != nil {
-		presentMu.Lock()
-		xRemoved = !present["x"]
-		presentMu.Unlock()
-	}
+	// single-item subscriptions end on removal: the item a PullID(ctx, id) watches is key(id), whatever spelling
+	// the subscriber and the deleting writer used
 	for _, s := range subs {
-		if s.spec.Kind != "pullid" || s.spec.Consume != "drain" || !xRemoved || s.spec.ID != "x" {
+		if s.spec.Kind != "pullid" || s.spec.Consume != "drain" || !writersDone {
 			continue
 		}
+		presentMu.Lock()
+		gone := removed[key(s.spec.ID)]
+		presentMu.Unlock()
 		inInitial := false
 		for _, id := range sc.Initial {
-			inInitial = inInitial || id == "x"
+			inInitial = inInitial || id == key(s.spec.ID)
 		}
-		if !inInitial {
+		if !gone || !inInitial {
 			continue
 		}
 		o.eval(monShutdown, "pullid-ends/"+s.class(sc.Res), true)
@@ -664,7 +678,7 @@ func checkDelivery(o *Outcome, sc Scenario, subs []*subRun, writers []*writerRun
 		if s.spec.Kind == "pullid" {
 			// the updates of its id up to (excluding) the removal
 			for _, e := range expectedBy[writerOfID(s.spec.ID)] {
-				if e.ID != s.spec.ID {
+				if e.ID != canon(sc.Icpt, s.spec.ID) {
 					continue
 				}
 				if e.Typ == "REMOVE" {
